@@ -99,6 +99,8 @@ def finding_matches(f, ob):
 
 
 def conclude(prop, tier, seed, mod, cresults, obligations, wall, extra_info=None, verbose=False):
+    covers = [o for o in obligations if o.kind == 'cover']
+    obligations = [o for o in obligations if o.kind != 'cover']
     known = load_known()
     findings = [f for f in known.get('findings', []) if f.get('property') == prop]
     ledger = load_ledger(prop)
@@ -108,6 +110,7 @@ def conclude(prop, tier, seed, mod, cresults, obligations, wall, extra_info=None
     proved = by_status.get('proved', [])
     refuted = by_status.get('refuted', [])
     unknown = by_status.get('unknown', []) + by_status.get('error', []) + by_status.get(None, [])
+    vacuous = [o for o in covers if o.status == 'vacuous']
     for cr in cresults:
         if getattr(cr, 'vacuous_return', False) and cr.status == 'ok' and all(o.status == 'proved' for o in cr.obligations):
             cr.status, cr.reason = 'error', 'vacuous: no returning path and every raising path is justified (outcomes %s)' % cr.outcomes
@@ -175,7 +178,7 @@ def conclude(prop, tier, seed, mod, cresults, obligations, wall, extra_info=None
     rc = 0
     if violations:
         rc = 1
-    elif error_contracts:
+    elif error_contracts or vacuous:
         rc = 3
     elif undecided or undecided_contracts or missing:
         rc = 2
@@ -185,6 +188,8 @@ def conclude(prop, tier, seed, mod, cresults, obligations, wall, extra_info=None
 
     for cr in error_contracts:
         lines.append('CHECKER-ERROR: %s: %s' % (cr.contract.key(), cr.reason[:2000]))
+    for ob in vacuous:
+        lines.append('CHECKER-ERROR: vacuous path (contradictory hypotheses): %s' % ob.name)
     for cr in undecided_contracts:
         lines.append('UNDECIDED: %s: %s' % (cr.contract.key(), cr.reason[:500]))
     for ob, why in undecided[:40]:
@@ -200,7 +205,7 @@ def conclude(prop, tier, seed, mod, cresults, obligations, wall, extra_info=None
     for l in lines:
         print(l)
     _last[prop] = dict(obligations=obligations, cresults=cresults)
-    write_evidence(prop, tier, seed, mod, cresults, obligations, wall, rc, violations, known_hits, undecided, extra_info)
+    write_evidence(prop, tier, seed, mod, cresults, obligations, wall, rc, violations, known_hits, undecided, extra_info, covers)
     return rc
 
 
@@ -214,7 +219,7 @@ def update_ledger(prop):
     print('ledger written: %d clauses' % len(ent))
 
 
-def write_evidence(prop, tier, seed, mod, cresults, obligations, wall, rc, violations, known_hits, undecided, extra_info):
+def write_evidence(prop, tier, seed, mod, cresults, obligations, wall, rc, violations, known_hits, undecided, extra_info, covers=()):
     os.makedirs(EVIDENCE, exist_ok=True)
     proved = [o for o in obligations if o.status == 'proved']
     unb = [o for o in obligations if not o.bounded]
@@ -228,7 +233,7 @@ def write_evidence(prop, tier, seed, mod, cresults, obligations, wall, rc, viola
     for cr in cresults:
         fnd = cr.fn.describe() if cr.fn is not None else {'ref': cr.contract.fn}
         fnd.update(contract=cr.contract.key(), paths=cr.paths, outcomes=cr.outcomes, status=cr.status,
-                   obligations=len(cr.obligations), discharged=sum(1 for o in cr.obligations if o.status == 'proved'),
+                   obligations=sum(1 for o in cr.obligations if o.kind != 'cover'), discharged=sum(1 for o in cr.obligations if o.status == 'proved' and o.kind != 'cover'),
                    bounded=cr.contract.bounded, generation_s=round(cr.seconds, 2),
                    canaries=getattr(cr, 'canary', {}), doc=(cr.contract.__doc__ or '').strip()[:300])
         if cr.reason:
@@ -258,6 +263,8 @@ def write_evidence(prop, tier, seed, mod, cresults, obligations, wall, rc, viola
         trusted_base=trusted, functions=functions, dropped_syntax=sorted(dropped), samples=samples,
         obligation_names=[dict(n=o.name, s=o.status, b=o.backend, t=round(o.seconds, 3), bounded=o.bounded) for o in obligations][:1500],
         exit_code=rc,
+        vacuity_checks=dict(paths_checked=len(covers), contradictory=sum(1 for o in covers if o.status == 'vacuous'),
+                            rule='per path: the path hypotheses alone must not be refutable (5 s budget; sat or unknown passes)'),
         evaluations=len(obligations), distinct_nontrivial=len(set((o.fn, o.clause) for o in proved)),
         rule='one SMT obligation per (function, feasible path, contract clause); distinct = distinct (function, clause) pairs discharged',
     )
